@@ -1,6 +1,7 @@
 package checks
 
 import (
+	"fmt"
 	"archive/tar"
 	"archive/zip"
 	"bytes"
@@ -136,6 +137,35 @@ func synthWitnesses() []Witness {
 	add := func(name string, d []byte) { out = append(out, Witness{Name: "synth/" + name, Data: d}) }
 
 	add("cbor", []byte{0xD9, 0xD9, 0xF7, 0xA1, 0x61, 0x61, 0x01})
+	// TZif (RFC 8536) version 2 files over a small product of the six counts,
+	// leap-second records included (zoneinfo/right/*): header, v1 block, second
+	// header, v2 block, footer
+	for _, cnt := range [][6]uint32{{0, 0, 0, 0, 1, 4}, {1, 1, 0, 2, 1, 4}, {2, 2, 1, 3, 2, 8}, {0, 0, 27, 5, 2, 8}, {1, 1, 3, 0, 1, 4}} {
+		hdr := func(ver byte) []byte {
+			h := make([]byte, 44)
+			copy(h, "TZif")
+			h[4] = ver
+			for i, v := range cnt {
+				binary.BigEndian.PutUint32(h[20+4*i:], v)
+			}
+			return h
+		}
+		isut, isstd, leap, tim, typ, chr := int(cnt[0]), int(cnt[1]), int(cnt[2]), int(cnt[3]), int(cnt[4]), int(cnt[5])
+		block := func(tsz int) []byte {
+			b := make([]byte, tim*tsz+tim+typ*6+chr+leap*(tsz+4)+isstd+isut)
+			for i := range b {
+				b[i] = byte(i%3) // small values: valid type indices, no accidental magic
+			}
+			return b
+		}
+		var d []byte
+		d = append(d, hdr('2')...)
+		d = append(d, block(4)...)
+		d = append(d, hdr('2')...)
+		d = append(d, block(8)...)
+		d = append(d, "\nUTC0\n"...)
+		add(fmt.Sprintf("tzif-v2-leap%d-time%d", leap, tim), d)
+	}
 	aaf := make([]byte, 64)
 	copy(aaf, []byte{0xD0, 0xCF, 0x11, 0xE0, 0xA1, 0xB1, 0x1A, 0xE1, 0x41, 0x41, 0x46, 0x42, 0x0D, 0x00, 0x4F, 0x4D})
 	aaf[30] = 0x09
